@@ -44,8 +44,9 @@ def run(tier, seed):
         from props import cluster
     except ImportError:
         cluster = None
-    if cluster and hasattr(cluster, "c17_insitu"):
-        cluster.c17_insitu(rep, tier, seed)
+    if cluster:
+        cluster.judge(rep, PID, tier, 0, args={"scenarios": True, "seed": 0}, what="directed schedules, in situ")
+        cluster.judge(rep, PID, tier, seed, what="random adversarial schedules, in situ")
     return rep.finish()
 
 
